@@ -143,6 +143,15 @@ def valid_tf(r: Rng, emin=-1000, emax=1000, allow_zero=True):
     emax = min(1024, max(emax, emin + 1))
     e = r.rng(emin, emax - 1)
     hi = mant_exp(r, e)
+    if r.below(8) == 0:
+        # structured high words: (half-/quarter-)integers and their power-of-two multiples — where reductions, parities,
+        # tie rules and table look-ups switch
+        cand = float(r.rng(-2**r.rng(1, 21), 2**r.rng(1, 21))) / r.choice([1, 1, 2, 2, 4, 8])
+        if r.below(3) == 0:
+            cand = math.ldexp(cand, r.rng(-60, 60))
+        if cand != 0 and Fraction(2) ** emin <= abs(Fraction(cand)) < Fraction(2) ** emax:
+            hi = cand
+            e = math.frexp(hi)[1] - 1
     if POOL and r.below(4) == 0:
         x = from_pool(r)
         if isfin(x) and x != 0 and Fraction(2) ** emin <= abs(Fraction(x)) < Fraction(2) ** emax:
